@@ -704,7 +704,7 @@ func init() {
 	Register(&Suite{
 		Name:       "ctcp.decode.line",
 		Prop:       []string{"C14"},
-		Fixed:      ctcpLineFixed,
+		Fixed:      func() []Case { return append(ctcpLineFixed(), ctcpEmptyPrefixFixed()...) },
 		Exhaustive: "white space of every kind strings.TrimSpace knows (and some it does not) after the closing and before the opening delimiter, CRLF and bare LF line ends",
 		Gen:        func(r *rand.Rand) Case { return genCTCPLine(r, false) },
 		Run: func(c Case) Result {
@@ -714,6 +714,17 @@ func init() {
 			spec := specOfLine(c)
 			want := specDecode(spec)
 			e := girc.ParseEvent(c[0])
+			if c[1] == "" {
+				// empty prefix: the only acceptable verdict is "not a message"
+				if e == nil {
+					return Result{Obs: "noparse", Sig: "line/emptyprefix"}
+				}
+				res := Result{Obs: showCTCP(girc.DecodeCTCP(e)), Sig: "line/emptyprefix-accepted"}
+				if e.Source != nil && girc.DecodeCTCP(e) != nil {
+					res.Oracle = "decode-unattributable: a line with an empty prefix became a CTCP message with a source"
+				}
+				return res
+			}
 			if e == nil {
 				return Result{Obs: "noparse", Oracle: "line-noparse: a well-formed line was not parsed", Sig: "noparse"}
 			}
@@ -736,7 +747,7 @@ func init() {
 		Prop: []string{"C14"},
 		Fixed: func() []Case {
 			var out []Case
-			for _, c := range ctcpLineFixed() {
+			for _, c := range append(ctcpLineFixed(), ctcpEmptyPrefixFixed()...) {
 				out = append(out, append(Case{"0"}, c...))
 			}
 			return out
@@ -748,8 +759,24 @@ func init() {
 			if len(c) < 6 || !strings.HasSuffix(c[1], "\n") || strings.Contains(strings.TrimRight(c[1], "\r\n"), "\n") {
 				return Result{Obs: "?args"}
 			}
-			x := ctcpSession(c[0])
 			spec := specOfLine(c[1:])
+			if c[2] == "" {
+				// a line ParseEvent must reject makes the read loop give up the connection: a
+				// client of its own
+				lines, gone := wireInjectFresh(c[1])
+				for i := range lines {
+					lines[i] = canonReply(lines[i])
+				}
+				res := Result{Obs: HexList(lines), Sig: "fresh/" + ctcpSig(spec) + "/" + strconv.Itoa(len(lines))}
+				if gone && len(lines) == 0 {
+					res.Obs = "noparse"
+				}
+				if len(lines) != 0 {
+					res.Oracle = "reply-unattributable: an automatic answer to a line with an empty prefix: " + strconv.Quote(lines[0])
+				}
+				return res
+			}
+			x := ctcpSession(c[0])
 			lines, panicked := x.wireInject(c[1])
 			if panicked {
 				return Result{Obs: "PANIC", Oracle: "panic: a CTCP handler panicked", Sig: "panic"}
@@ -1048,6 +1075,11 @@ var (
 )
 
 func genCTCPLine(r *rand.Rand, wire bool) Case {
+	if r.Intn(40) == 0 {
+		c := Pick(r, append(append([]string{}, ctcpKnown...), "FOO", "ACTION x", "PING a b")...)
+		return emptyPrefixCase(Pick(r, " ", "  ", "   "), Pick(r, "PRIVMSG", "PRIVMSG", "NOTICE"), Pick(r, "me", "#chan", "test"),
+			Pick(r, "\x01"+c+"\x01", "\x01"+c+"\x01", "hello"), Pick(r, "\r\n", "\n"))
+	}
 	nick := Pick(r, "alice", "Nick[x]", "bob", "irc.server.net", "me", "a^b")
 	cmd := "PRIVMSG"
 	switch r.Intn(10) {
@@ -1094,10 +1126,34 @@ func ctcpLineCase(nick, cmd, target, text, eol string) Case {
 	return Case{prefix + " " + cmd + " " + target + " :" + text + eol, nick, cmd, target, text}
 }
 
+// emptyPrefixCase: a line whose ':' prefix indicator is followed directly by a space - ": CMD ...",
+// ":  CMD ..." - names nobody: it is not an IRC message (ParseEvent returns nil, the read loop
+// gives up the connection) and must never be answered. The nick piece is "" for these.
+func emptyPrefixCase(gap, cmd, target, text, eol string) Case {
+	return Case{":" + gap + cmd + " " + target + " :" + text + eol, "", cmd, target, text}
+}
+
+func ctcpEmptyPrefixFixed() []Case {
+	var out []Case
+	for _, gap := range []string{" ", "  "} {
+		for _, k := range []string{"PRIVMSG", "NOTICE"} {
+			for _, c := range append(append([]string{}, ctcpKnown...), "FOO", "ACTION x") {
+				out = append(out, emptyPrefixCase(gap, k, "test", "\x01"+c+"\x01", "\r\n"))
+			}
+			out = append(out, emptyPrefixCase(gap, k, "test", "\x01PING 1 2\x01", "\n"), emptyPrefixCase(gap, k, "#chan", "hello", "\r\n"))
+		}
+	}
+	return out
+}
+
 // specOfLine: the event the line stands for, from the pieces. The line terminator is not part
 // of the text, so CR/LF at its very end are not either.
 func specOfLine(c Case) *girc.Event {
 	// (IRC commands are case-insensitive; ParseEvent normalises them to upper case)
+	if c[1] == "" {
+		// empty prefix: nobody to attribute the message to
+		return &girc.Event{Command: strings.ToUpper(c[2]), Params: []string{c[3], strings.TrimRight(c[4], "\r\n")}}
+	}
 	return &girc.Event{Source: &girc.Source{Name: c[1]}, Command: strings.ToUpper(c[2]), Params: []string{c[3], strings.TrimRight(c[4], "\r\n")}}
 }
 
@@ -1155,6 +1211,56 @@ func (x *ctcpSess) wireInject(raw string) (lines []string, panicked bool) {
 		lines = append(lines, l)
 	}
 	return lines, x.s.PanicCount() != before
+}
+
+// wireInjectFresh starts a client of its own, writes raw and a PING to its socket and returns
+// what the client wrote in response (the PONG excluded) and whether it gave up the connection.
+func wireInjectFresh(raw string) (lines []string, gone bool) {
+	cfg := drive.BaseConfig()
+	cfg.PingDelay = -1
+	s := drive.Start(cfg)
+	mark := s.Mark()
+	base := runtime.NumGoroutine()
+	if _, err := s.Peer.Write([]byte(raw + "PING :fsync\r\n")); err != nil {
+		s.Stop()
+		return []string{"?write-error"}, false
+	}
+	deadline := time.Now().Add(10 * time.Second)
+	for !gone {
+		select {
+		case err := <-s.Done:
+			s.Done <- err
+			gone = true
+		default:
+		}
+		if _, ok := s.WaitLine(func(l string) bool { return l == "PONG fsync\r\n" || l == "PONG :fsync\r\n" }, time.Millisecond); ok {
+			break
+		}
+		if time.Now().After(deadline) {
+			s.Stop()
+			return []string{"?sync-timeout"}, false
+		}
+	}
+	if !gone {
+		time.Sleep(500 * time.Microsecond)
+		quiesce(base)
+		time.Sleep(2 * time.Millisecond)
+		quiesce(base)
+	}
+	time.Sleep(2 * time.Millisecond)
+	for _, l := range s.Since(mark) {
+		l = strings.TrimSuffix(l, "\r\n")
+		if l == "PONG fsync" || l == "PONG :fsync" {
+			continue
+		}
+		lines = append(lines, l)
+	}
+	if gone {
+		s.Peer.Close()
+	} else {
+		s.Stop()
+	}
+	return lines, gone
 }
 
 // ---- handler registration (suites ctcp.parsecmd, ctcp.table) ----
